@@ -731,14 +731,16 @@ func (in *Interp) prepareCall(fr *frame, call *ssa.CallCommon) (fn Value, args [
 		if recv.t == nil {
 			in.goPanic("invalid memory address or nil pointer dereference (method call on nil interface " + call.Method.Name() + ")")
 		}
-		if _, ok := recv.v.(promOpaque); ok {
+		if no, ok := recv.v.(nativeObj); ok {
 			res := call.Signature().Results()
-			return &nativeFunc{name: "prometheus-noop", f: func(in *Interp, caller *frame, args []Value) Value {
-				if res.Len() == 0 {
-					return nil
-				}
-				return in.zero(res)
-			}}, nil
+			mname := call.Method.Name()
+			var margs []Value
+			for _, arg := range call.Args {
+				margs = append(margs, copyVal(fr.get(arg)))
+			}
+			return &nativeFunc{name: "native-method", f: func(in *Interp, caller *frame, args []Value) Value {
+				return no.callMethod(in, mname, args, res)
+			}}, margs
 		}
 		f := in.findMethod(recv.t, call.Method.Pkg(), call.Method.Name())
 		if f == nil {
